@@ -328,9 +328,6 @@ fn main() {
 	let thorough = h.thorough();
 	for sp in registry() {
 		let mut params = small_params(&sp);
-		if thorough {
-			params.extend(edge_params(&sp).into_iter().take(4));
-		}
 		let name: &'static str = sp.name;
 		let alphabet = inputs(sp.input);
 		let sys = SnapSys {
@@ -350,6 +347,17 @@ fn main() {
 			pre_depth: if thorough { |p| (2 * span(p) as u32 + 2).min(7) } else { |p| (2 * span(p) as u32 + 2).min(5) },
 			alphabet: checks::grid::mixed(sp.input)[..3].to_vec(),
 		};
+		h.go(&sys, &Limits::depth(20).wall_secs(300), true);
+	}
+	// boundary parameters (largest legal windows): one snapshot after a short stream, in both tiers
+	for sp in registry() {
+		let name: &'static str = sp.name;
+		let params = edge_params(&sp);
+		if params.is_empty() {
+			continue;
+		}
+		let alphabet = inputs(sp.input);
+		let sys = SnapSys { name: format!("{name}/snapshot-at-every-state/boundary-parameters"), spec_name: name, params, pre_depth: |_| 2, alphabet: alphabet[..2].to_vec() };
 		h.go(&sys, &Limits::depth(20).wall_secs(300), true);
 	}
 	let ks = alpha::k_candles();
